@@ -200,7 +200,12 @@ impl SourceBlockEncodingPlan {
 }
 
 #[cfg(feature = "std")]
+#[cfg(not(raptorq_verif_smallcache))]
 const SOURCE_BLOCK_ENCODING_PLAN_CACHE_CAPACITY: usize = 64;
+// verification hook H2: capacity knob as a build flavour, so eviction races are reachable with
+// 4 distinct block sizes instead of 65
+#[cfg(all(feature = "std", raptorq_verif_smallcache))]
+const SOURCE_BLOCK_ENCODING_PLAN_CACHE_CAPACITY: usize = 3;
 
 #[cfg(feature = "std")]
 #[derive(Default)]
@@ -257,6 +262,33 @@ fn get_or_generate_source_block_encoding_plan(symbol_count: u16) -> Arc<SourceBl
     guard.insertion_order.push_back(symbol_count);
     guard.plans.insert(symbol_count, Arc::clone(&generated));
     generated
+}
+
+// verification hook H2: read-only observation of the plan cache
+#[cfg(all(feature = "std", raptorq_verif))]
+pub mod verif_plan_cache {
+    use std::vec::Vec;
+
+    pub const CAPACITY: usize = super::SOURCE_BLOCK_ENCODING_PLAN_CACHE_CAPACITY;
+
+    // (sorted keys, insertion order, source_symbol_count of the plan stored under each sorted key)
+    pub fn snapshot() -> (Vec<u16>, Vec<u16>, Vec<u16>) {
+        let guard = super::source_block_encoding_plan_cache()
+            .lock()
+            .unwrap_or_else(|poisoned| poisoned.into_inner());
+        let mut keys: Vec<u16> = guard.plans.keys().copied().collect();
+        keys.sort_unstable();
+        let counts = keys
+            .iter()
+            .map(|k| guard.plans[k].source_symbol_count)
+            .collect();
+        (keys, guard.insertion_order.iter().copied().collect(), counts)
+    }
+
+    // The plan the cache hands out for this symbol count (generating and inserting it if missing)
+    pub fn get_or_generate(symbol_count: u16) -> super::SourceBlockEncodingPlan {
+        (*super::get_or_generate_source_block_encoding_plan(symbol_count)).clone()
+    }
 }
 #[derive(Clone, Debug, PartialEq, Eq)]
 #[cfg_attr(feature = "serde_support", derive(Serialize, Deserialize))]
